@@ -93,6 +93,10 @@ impl Rng {
     &xs[self.usize(xs.len())]
   }
 
+  pub fn pick_str<'a>(&mut self, xs: &[&'a str]) -> &'a str {
+    xs[self.usize(xs.len())]
+  }
+
   pub fn f64(&mut self) -> f64 {
     (self.next_u64() >> 11) as f64 / (1u64 << 53) as f64
   }
